@@ -133,6 +133,8 @@ class Plant:
             ecomps.append(obj)
         if order is not None:
             ecomps = [ecomps[i] for i in order]
+        for c in spec.get("electric_objects", []):      # electric-side objects of a plant without electric system (PTI/PTO)
+            self.by_name[c["name"]] = build_electric_component(c)
         if ecomps:
             self.electric = ElectricPowerSystem(spec.get("name", "plant"), ecomps,
                                                 [(SwbId(a), SwbId(b)) for a, b in spec.get("bus_ties", [])])
@@ -298,3 +300,39 @@ def gen_bus_ties(rng, swbs):
         ends.append((perm[0], perm[2]))
     ends = [(b, a) if rng.random() < 0.5 else (a, b) for a, b in ends]
     return [list(ends[i]) for i in rng.permutation(len(ends))]
+
+
+# ------------------------------------------------------------------ mechanical / hybrid plants
+
+def gen_mech_components(rng, n_lines=None, pti_swb=None, force_pti=None):
+    """Components of a mechanical propulsion system: per shaft line 1-3 main engines (+-gearbox),
+    1-2 mechanical loads, optional PTI/PTO (returned separately: it is an electric-side object)."""
+    if n_lines is None:
+        n_lines = int(rng.choice([1, 2, 3], p=[0.5, 0.35, 0.15]))
+    ids = list(range(1, n_lines + 1)) if rng.random() < 0.7 else sorted(int(x) for x in rng.choice(range(1, 9), size=n_lines, replace=False))
+    mech, ptis = [], []
+    for ln in ids:
+        for i in range(int(rng.integers(1, 4))):
+            rated = float(rng.choice([1000.0, 2500.0, 4000.0, float(np.round(rng.uniform(500, 6000), 0))]))
+            e = {"kind": "main_engine", "name": f"me{ln}_{i}", "shaft_line": ln, "rated": rated,
+                 "engine": gen_engine_spec(rng, rated, speed=float(rng.choice([80.0, 120.0, 500.0, 750.0])))}
+            if rng.random() < 0.4:
+                e["gearbox"] = {"rated": rated, "curve": comps.gen_accepted_curve(rng, rated, lo=0.9)}
+            mech.append(e)
+        for i in range(int(rng.integers(1, 3))):
+            r = float(np.round(rng.uniform(800, 6000), 0))
+            mech.append({"kind": "mech_load", "name": f"prop{ln}_{i}", "shaft_line": ln, "rated": r,
+                         "curve": comps.gen_accepted_curve(rng, r, lo=0.9), "type": "PROPELLER_LOAD"})
+        if (force_pti if force_pti is not None else rng.random() < 0.5):
+            swb = pti_swb if pti_swb is not None else 1
+            ptis.append(gen_serial_spec(rng, "pti_pto", f"pti_l{ln}", swb, float(np.round(rng.uniform(300, 2000), 0)), shaft_line=ln))
+    return mech, ptis, ids
+
+
+def gen_mechanical_plant(rng, **kw):
+    mech, ptis, ids = gen_mech_components(rng, **kw)
+    comps_ = mech + [{"kind": "pti_pto_ref", "name": p["name"]} for p in ptis]
+    spec = {"type": "mechanical", "name": "mplant", "electric_objects": ptis, "mechanical": comps_, "lines": ids}
+    if rng.random() < 0.5:
+        spec["mech_order"] = [int(i) for i in rng.permutation(len(comps_))]
+    return spec
